@@ -8,6 +8,7 @@
 #include <igris/util/base64.cpp>
 #include <climits>
 #include <set>
+#include <stdexcept>
 
 static_assert(CHAR_MIN < 0, "model assumes plain char is signed");
 static_assert(__BYTE_ORDER__ == __ORDER_LITTLE_ENDIAN__, "model assumes little-endian byte lanes");
@@ -80,6 +81,25 @@ static bool only(const std::string &s, const std::string &alphabet)
 static std::string str(const bytes &m) { return std::string(m.begin(), m.end()); }
 static bytes byt(const std::string &s) { return bytes(s.begin(), s.end()); }
 static const std::string HEXA = "0123456789ABCDEF";
+static const std::string HEXANY = "0123456789ABCDEFabcdef";
+// strtoul-based parse of a hex text of either case (pairs -> bytes, odd tail dropped)
+static bytes ref_unhex_anycase(const std::string &t)
+{
+    bytes out;
+    for (size_t i = 0; i + 1 < t.size(); i += 2)
+        out.push_back((uint8_t)strtoul(t.substr(i, 2).c_str(), 0, 16));
+    return out;
+}
+static std::string ascii_lower(std::string t)
+{
+    for (char &c : t) if (c >= 'A' && c <= 'Z') c = (char)(c + 32);
+    return t;
+}
+static std::string ascii_upper(std::string t)
+{
+    for (char &c : t) if (c >= 'a' && c <= 'z') c = (char)(c - 32);
+    return t;
+}
 
 // ---------------------------------------------------------------- run
 template <class T> static void fixed_to(const std::string &arg, out &o, void (*to_hex)(char *, T), T (*from_hex)(const char *))
@@ -118,6 +138,22 @@ template <class T> static void fixed_from(const std::string &arg, out &o, void (
             o.fail("uintN_to_hex(hex_to_uintN(t)) = '" + text2 + "' != t");
         o.tag("upperhex");
     }
+    else if ((int)tb.size() == W && only(text, HEXANY))
+    {
+        // lower / mixed case digits are accepted as the same number
+        if ((T)strtoull(text.c_str(), 0, 16) != v)
+            o.fail("hex_to_uintN('" + text + "') = " + hexn((uint64_t)v, W));
+        if (text2 != ascii_upper(text))
+            o.fail("uintN_to_hex(hex_to_uintN(t)) = '" + text2 + "' is not upper(t)");
+        o.tag("lowerhex");
+    }
+    if ((int)tb.size() == W)
+    {
+        // case-insensitive on every text, hex digits or not
+        exact_buf tl(byt(ascii_lower(text)));
+        if (from_hex((const char *)tl.p) != v)
+            o.fail("hex_to_uintN(lower(t)) != hex_to_uintN(t)");
+    }
 }
 
 static void run_op(const std::vector<std::string> &w, const std::string &, out &o)
@@ -136,12 +172,76 @@ static void run_op(const std::vector<std::string> &w, const std::string &, out &
         o.tag("alpha");
         return;
     }
+    if (op == "maxsz")
+    {
+        o.result = hexn((uint64_t)std::string().max_size(), 16);
+        return;
+    }
     if (w.size() < 2)
     {
         o.result = "bad-op";
         return;
     }
     const std::string &arg = w[1];
+    if (op == "hbyte" && w.size() == 3)
+    {
+        char hi = (char)strtoul(w[1].c_str(), 0, 16), lo = (char)strtoul(w[2].c_str(), 0, 16);
+        uint8_t v = hex2byte(hi, lo);
+        o.result = hexn(v, 2);
+        std::string t{hi, lo};
+        if (only(t, HEXANY))
+        {
+            o.tag("hexpair");
+            if (v != strtoul(t.c_str(), 0, 16)) o.fail("hex2byte('" + t + "') != strtoul");
+            if (t != ascii_upper(t)) o.tag("lowerhex");
+        }
+        else
+            o.tag("nonhex");
+        if (hex2byte(ascii_lower(t)[0], ascii_lower(t)[1]) != v) o.fail("hex2byte is not case-insensitive on " + hex(t));
+        return;
+    }
+    if (op == "hdecm" && w.size() == 4)
+    {
+        // hexascii_decode with an explicit int size on exactly mapped buffers
+        int size = atoi(w[1].c_str());
+        size_t cap = (size_t)atoi(w[2].c_str());
+        bytes t = unhex(w[3]);
+        exact_buf in(t), outb(cap);
+        hexascii_decode(in.p, size, outb.p);
+        size_t cnt = size <= 1 ? 0 : (size_t)(size / 2);
+        bytes d(outb.p, outb.p + (cnt < cap ? cnt : cap));
+        o.result = hex(d);
+        for (size_t k = cnt; k < cap; k++)
+            if (outb.p[k] != 0xA5) { o.fail("hexascii_decode wrote out[" + std::to_string(k) + "], beyond size/2"); break; }
+        if (size > 0 && (size_t)size <= t.size())
+        {
+            std::string pre = str(t).substr(0, (size_t)size);
+            if (only(pre, HEXANY) && d != ref_unhex_anycase(pre)) o.fail("hexascii_decode(size) != reference parse of the first size characters");
+        }
+        if (size < 0) o.tag("negsize");
+        if (size == 0) o.tag("size0");
+        if (size > 0 && size % 2) o.tag("oddsize");
+        if (size > 0 && (size_t)size < t.size()) o.tag("prefix");
+        if (cap > cnt) o.tag("sparecap");
+        return;
+    }
+    if (op == "hthrow")
+    {
+        // ret.resize(size * 2) is the only call whose argument can exceed
+        // max_size(): std::length_error leaves the function before a byte of
+        // the (one byte long) buffer is read
+        size_t n = (size_t)strtoull(arg.c_str(), 0, 16);
+        exact_buf one((size_t)1);
+        std::string r = "returns";
+        try
+        {
+            (void)igris::hexascii_encode(one.p, n);
+        }
+        catch (const std::length_error &) { r = "length_error"; }
+        o.result = r;
+        o.tag("throws");
+        return;
+    }
     if (op == "half")
     {
         uint8_t n = (uint8_t)strtoul(arg.c_str(), 0, 16);
@@ -170,6 +270,18 @@ static void run_op(const std::vector<std::string> &w, const std::string &, out &
             if (half2hex(v) != c)
                 o.fail("half2hex(hex2half(c)) != c");
         }
+        else if (c >= 'a' && c <= 'f')
+        {
+            o.tag("lowerhex");
+            char t[2] = {c, 0};
+            if (v != strtoul(t, 0, 16)) o.fail("hex2half of a lower-case hex digit is wrong");
+            if (half2hex(v) != c - 32) o.fail("half2hex(hex2half(c)) != upper(c)");
+        }
+        else
+            o.tag("nonhex");
+        // every letter has the value of its other case
+        if (c >= 'A' && c <= 'Z' && hex2half((char)(c + 32)) != v) o.fail("hex2half(lower(c)) != hex2half(c)");
+        if (c >= 'a' && c <= 'z' && hex2half((char)(c - 32)) != v) o.fail("hex2half(upper(c)) != hex2half(c)");
     }
     else if (op == "henc")
     {
@@ -221,6 +333,25 @@ static void run_op(const std::vector<std::string> &w, const std::string &, out &
             if (sdec && ref_hex(byt(sd)) != even) o.fail("igris::hexascii_decode: re-encoding does not give the text back");
             o.tag("upperhex");
         }
+        else if (only(str(t), HEXANY))
+        {
+            bytes ref = ref_unhex_anycase(str(t));
+            if (d != ref) o.fail("hexascii_decode of a mixed-case hex text != strtoul reference");
+            if (sdec && byt(sd) != ref) o.fail("igris::hexascii_decode of a mixed-case hex text != strtoul reference");
+            o.tag("lowerhex");
+        }
+        else
+            o.tag("nonhex");
+        {
+            // case-insensitive on every text; result length floor(len/2); buffer overload = string overload
+            std::string tl = ascii_lower(str(t));
+            exact_buf inl(byt(tl)), outl(t.size() / 2);
+            hexascii_decode(inl.p, (int)t.size(), outl.p);
+            if (outl.vec() != d) o.fail("hexascii_decode(lower(t)) != hexascii_decode(t)");
+            if (sdec && sd.size() != t.size() / 2) o.fail("igris::hexascii_decode: result length != len/2");
+            std::string (*bdec)(igris::buffer const &) = igris::hexascii_decode;
+            if (bdec && sdec && bdec(igris::buffer((const void *)in.p, t.size())) != sd) o.fail("igris::hexascii_decode(buffer) != (string)");
+        }
         if (t.size() % 2) o.tag("oddlen");
     }
     else if (op == "u8") fixed_to<uint8_t>(arg, o, uint8_to_hex, hex_to_uint8);
@@ -263,6 +394,19 @@ static void run_op(const std::vector<std::string> &w, const std::string &, out &
         o.result = hex(d);
         // canonical encoder output?  then the decoder must invert it
         bytes rd = ref_b64_decode(t, alpha);
+        // on EVERY text: the whole bytes of the sextets of the longest prefix
+        // of alphabet letters (the url decoder also takes '+' and '/')
+        {
+            std::string tt = t;
+            if (url) for (char &c : tt) { if (c == '-') c = '+'; if (c == '_') c = '/'; }
+            bytes want = ref_b64_decode(tt, STD_ALPHA);
+            if (byt(d) != want) o.fail(op + ": result is not the whole bytes of the leading letters' sextets (got " + hex(d) + ", want " + hex(want) + ")");
+            size_t nl = 0;
+            while (nl < tt.size() && tt[nl] && memchr(STD_ALPHA, tt[nl], 64)) nl++;
+            if (nl < tt.size()) o.tag("stopped");
+            if (nl % 4 == 1) o.tag("tail1");
+            if (nl < tt.size() && tt[nl] != '=') o.tag("junkstop");
+        }
         if (ref_b64_encode(rd, alpha) == t)
         {
             if (byt(d) != rd) o.fail(op + " does not invert the canonical encoding '" + t + "' (got " + hex(d) + ")");
@@ -295,6 +439,28 @@ static std::string rnd_upper_hex(rng &r, size_t n)
         s.push_back(HEXA[r.below(16)]);
     return s;
 }
+// hex digits, `upper_pct` % of the letters upper-case
+static std::string rnd_any_hex(rng &r, size_t n, unsigned upper_pct)
+{
+    static const std::string lo = "0123456789abcdef";
+    std::string s;
+    for (size_t i = 0; i < n; i++)
+    {
+        unsigned k = (unsigned)r.below(16);
+        s.push_back(r.chance(upper_pct) ? HEXA[k] : lo[k]);
+    }
+    return s;
+}
+// mostly hex digits with some arbitrary characters
+static std::string rnd_text(rng &r, size_t n)
+{
+    static const std::vector<uint8_t> odd = {0x00, 0x20, 0x0a, 0x2f, 0x3a, 0x40, 0x47, 0x60, 0x67, 0x7f, 0x80, 0xff, 'x', 'X', 'g', 'G', 'z', 'Z'};
+    std::string s = rnd_any_hex(r, n, 50);
+    int mode = (int)r.below(3);
+    for (char &c : s)
+        if (mode == 2 || r.chance(mode == 0 ? 10 : 40)) c = (char)(r.chance(50) ? r.pick(odd) : (uint8_t)r.next());
+    return s;
+}
 static void emit(const char *op, const std::string &payload) { printf("%s %s\n", op, hex(payload).c_str()); }
 static void emit(const char *op, const bytes &payload) { printf("%s %s\n", op, hex(payload).c_str()); }
 
@@ -305,10 +471,25 @@ static void gen(rng &r, const std::string &tier)
     // (1) every nibble helper value; every upper-case digit
     for (unsigned n = 0; n < 256; n++) printf("half %02x\n", n);
     for (char c : HEXA) printf("hhalf %02x\n", (unsigned)(uint8_t)c);
+    // every char value through hex2half; hex2byte: every char as high and as low
+    // digit against a set of partners, and all pairs of hex digits of either case
+    for (unsigned c = 0; c < 256; c++) printf("hhalf %02x\n", c);
+    for (unsigned c = 0; c < 256; c++)
+        for (unsigned d : {0x30u, 0x39u, 0x41u, 0x46u, 0x61u, 0x66u, 0x00u, 0x3au, 0x47u, 0x67u, 0x80u, 0xffu})
+        {
+            printf("hbyte %02x %02x\n", c, d);
+            printf("hbyte %02x %02x\n", d, c);
+        }
+    for (char a : HEXANY) for (char b : HEXANY) printf("hbyte %02x %02x\n", (unsigned)(uint8_t)a, (unsigned)(uint8_t)b);
+    puts("maxsz");
+    for (unsigned long long n : {1ull << 62, (1ull << 62) + 1, (1ull << 63) - 1, (3ull << 61)})
+        printf("hthrow %llx\n", n);
     // (2) fixed-width helpers: all 8/16-bit values, all upper-case 2-digit texts
     for (unsigned v = 0; v < 256; v++) printf("u8 %02x\n", v);
     for (unsigned v = 0; v < 65536; v++) printf("u16 %04x\n", v);
     for (char a : HEXA) for (char b : HEXA) emit("x8", std::string{a, b});
+    for (char a : HEXANY) for (char b : HEXANY) if (islower(a) || islower(b)) emit("x8", std::string{a, b});
+    for (unsigned a = 0; a < 256; a++) { emit("x8", std::string{(char)a, '7'}); emit("x8", std::string{'c', (char)a}); }
     for (unsigned v = 0; v < 65536; v += th ? 1 : 1 + (unsigned)r.below(16))
     {
         char t[8];
@@ -340,6 +521,16 @@ static void gen(rng &r, const std::string &tier)
         printf("u64 %016llx\n", (unsigned long long)v);
         emit("x32", rnd_upper_hex(r, 8));
         emit("x64", rnd_upper_hex(r, 16));
+        if (i % 4 == 0)
+        {
+            emit("x16", rnd_any_hex(r, 4, i % 8 == 0 ? 0 : 50));
+            emit("x32", rnd_any_hex(r, 8, i % 8 == 0 ? 0 : 50));
+            emit("x64", rnd_any_hex(r, 16, i % 8 == 0 ? 0 : 50));
+        }
+        if (i % 16 == 1)
+        {
+            emit("x16", rnd_text(r, 4)); emit("x32", rnd_text(r, 8)); emit("x64", rnd_text(r, 16));
+        }
     }
     // (3) all byte strings of length <= 4 over a reduced alphabet
     const uint8_t al[6] = {0x00, 0x7f, 0x80, 0xff, 0x3e, 0xfb};
@@ -387,6 +578,17 @@ static void gen(rng &r, const std::string &tier)
             emit("budec", ref_b64_encode(m, URL_ALPHA));
             // hex text of every length (odd ones drop the last digit)
             emit("hdec", rnd_upper_hex(r, len));
+            if (len % 3 == 0) emit("hdec", rnd_any_hex(r, len, len % 2 ? 0 : 50));
+            if (len % 5 == 0) emit("hdec", rnd_text(r, len));
+            if (len <= 40 || len % 7 == 0)
+            {
+                // explicit int size: negative, zero, odd, a prefix of the mapped text; out mapped exactly or with spare room
+                std::string t = len % 2 ? rnd_text(r, len) : rnd_any_hex(r, len, 50);
+                int size = (int)r.range(-3, len);
+                if (r.chance(30)) size = len;
+                size_t cnt = size <= 1 ? 0 : (size_t)(size / 2);
+                printf("hdecm %d %zu %s\n", size, cnt + (r.chance(30) ? (size_t)r.below(3) : 0), hex(t).c_str());
+            }
         }
     // all upper-case hex texts of length <= 2, and length 3 (odd)
     emit("hdec", std::string());
@@ -398,6 +600,28 @@ static void gen(rng &r, const std::string &tier)
             emit("hdec", std::string{a, b});
             emit("hdec", std::string{a, b, a});
         }
+    }
+    // all texts of length <= 2 over hex digits of either case and a few other
+    // characters, each also as a 3-character (odd) text
+    {
+        const std::string cs = HEXANY + std::string(":@G`g/ \n\x7f\x80\xff", 11) + std::string(1, '\0');
+        for (char a : cs)
+        {
+            if (HEXA.find(a) == std::string::npos) emit("hdec", std::string{a});
+            for (char b : cs)
+                if (HEXA.find(a) == std::string::npos || HEXA.find(b) == std::string::npos)
+                {
+                    emit("hdec", std::string{a, b});
+                    emit("hdec", std::string{a, b, b});
+                }
+        }
+        for (int size = -4; size <= 6; size++)
+            for (size_t extra = 0; extra < 2; extra++)
+            {
+                size_t cnt = size <= 1 ? 0 : (size_t)(size / 2);
+                printf("hdecm %d %zu %s\n", size, cnt + extra, hex(std::string("aBc9Ef").substr(0, size < 0 ? 0 : (size_t)size)).c_str());
+                printf("hdecm %d %zu %s\n", size, cnt + extra, hex(std::string("aBc9Ef")).c_str());
+            }
     }
     // (5) decoders on everything else they may meet: all texts of length <= 4
     // over a reduced character set, truncated and damaged encodings
@@ -424,6 +648,32 @@ static void gen(rng &r, const std::string &tier)
         else if (how == 1) t.insert(r.below(t.size() + 1), r.pick(junk));            // damaged
         else if (how == 2) t += r.pick(junk) + ref_b64_encode(rnd_bytes(r, 3), STD_ALPHA); // trailing data
         else { t.clear(); for (int k = (int)r.range(0, 12); k > 0; k--) t.push_back(STD_ALPHA[r.below(64)]); }
+        emit(url ? "budec" : "bdec", t);
+    }
+    // malformed text by class: missing / excess padding, '=' in the middle,
+    // embedded white space, bytes >= 0x80, every single character after "QUJD" / "QU"
+    for (unsigned c = 0; c < 256; c++)
+        for (const char *pre : {"", "Q", "QU", "QUJ", "QUJD"})
+        {
+            std::string t = std::string(pre) + std::string(1, (char)c) + "REVG";
+            emit("bdec", t);
+            emit("budec", t);
+        }
+    for (int i = 0; i < (th ? 4000 : 400); i++)
+    {
+        bool url = r.chance(50);
+        const char *alpha = url ? URL_ALPHA : STD_ALPHA;
+        std::string t = ref_b64_encode(rnd_bytes(r, (size_t)r.range(1, 20)), alpha);
+        size_t core = t.find('=') == std::string::npos ? t.size() : t.find('=');
+        switch (r.below(6))
+        {
+        case 0: t = t.substr(0, core); break;                                       // padding missing
+        case 1: t += std::string((size_t)r.range(1, 3), '='); break;                // excess padding
+        case 2: t.insert(r.below(core + 1), "="); break;                            // '=' in the middle
+        case 3: t.insert(r.below(core + 1), r.chance(50) ? " " : "\r\n"); break;    // white space
+        case 4: t[r.below(t.size())] = (char)(0x80 | r.below(128)); break;          // byte >= 0x80
+        default: for (size_t k = 4; k < t.size(); k += 5) t.insert(k, "\n"); break; // line-wrapped
+        }
         emit(url ? "budec" : "bdec", t);
     }
 }
